@@ -139,8 +139,12 @@ class AckPdu(AbstractFileDirectiveBase):
         ack_packet.pdu_file_directive = FileDirectivePduBase.unpack(raw_packet=data)
         ack_packet.pdu_file_directive.verify_length_and_checksum(data)
         current_idx = ack_packet.pdu_file_directive.header_len
-        if current_idx + 2 > ack_packet.packet_len:
-            raise BytesTooShortError(current_idx + 2, ack_packet.packet_len)
+        # Only the declared PDU, without the CRC trailer, holds directive parameters
+        end_of_params = ack_packet.packet_len
+        if ack_packet.pdu_file_directive.pdu_conf.crc_flag == CrcFlag.WITH_CRC:
+            end_of_params -= 2
+        if current_idx + 2 > end_of_params:
+            raise BytesTooShortError(current_idx + 2, end_of_params)
         ack_packet.directive_code_of_acked_pdu = (data[current_idx] & 0xF0) >> 4
         ack_packet.directive_subtype_code = data[current_idx] & 0x0F
         current_idx += 1
